@@ -44,8 +44,21 @@ func chunkingsFor(in []byte, idx int, tok bool) [][]int {
 			}
 			if sum-c[len(c)-1] < len(in) { // the last read of the composition still gets a byte
 				res = append(res, c)
+				// EMPTY reads (0, nil) in front of, between and after the reads of the composition, single and repeated:
+				// an empty read decides nothing about the byte order mark (c109a1a; before, an empty FIRST read switched
+				// the BOM handling of ParseReader / Load off)
+				res = append(res, append([]int{0}, c...), append([]int{0, 0}, c...))
+				if len(c) >= 2 {
+					mid := append(append(append([]int{}, c[:1]...), 0), c[1:]...)
+					res = append(res, mid, append([]int{0}, mid...))
+				}
+				res = append(res, append(append([]int{}, c...), 0, 0))
 			}
 		}
+	}
+	// empty reads for every input: first, repeated, between the first bytes
+	if len(in) > 0 && (len(in) <= 600 || idx%8 == 0) {
+		res = append(res, []int{0}, []int{0, 0, 1, 0, 1, 0})
 	}
 	return res
 }
@@ -652,5 +665,5 @@ func runStreams() {
 		}
 		flush()
 	})
-	rep.Rule = "inputs: corpus, exhaustive strings over class-representative alphabets of sen/maps.go, every (context, mode prefix, byte, suffix), seeded random SEN documents (tokens, both quote delimiters, comments, '+', optional commas, token functions, number shapes) with byte mutations and multi-document inputs, tokens straddling offset 4096, whole/partial/broken byte order marks in front of the corpus, of short strings and of documents (every input that starts with 0xEF additionally under every composition of its first 1..5 bytes into reads of 1..3 bytes, single and multi); each input through sen.Parser.Parse/ParseReader and sen.Tokenizer.Parse/Load x {single, multi} x chunkings (whole, 1-byte, every split of short inputs, pseudo-random splits, 4096-straddling), every call on a fresh instance under recover and a watchdog; duplicates dropped before running (64-bit hash); distinct_nontrivial counts the distinct inputs of length >= 2"
+	rep.Rule = "inputs: corpus, exhaustive strings over class-representative alphabets of sen/maps.go, every (context, mode prefix, byte, suffix), seeded random SEN documents (tokens, both quote delimiters, comments, '+', optional commas, token functions, number shapes) with byte mutations and multi-document inputs, tokens straddling offset 4096, whole/partial/broken byte order marks in front of the corpus, of short strings and of documents (every input that starts with 0xEF additionally under every composition of its first 1..5 bytes into reads of 1..3 bytes, single and multi, and with EMPTY reads (0, nil) in front of, between and after those reads, single and repeated; every input also with an empty first read and with empty reads between its first bytes); each input through sen.Parser.Parse/ParseReader and sen.Tokenizer.Parse/Load x {single, multi} x chunkings (whole, 1-byte, every split of short inputs, pseudo-random splits, 4096-straddling), every call on a fresh instance under recover and a watchdog; duplicates dropped before running (64-bit hash); distinct_nontrivial counts the distinct inputs of length >= 2"
 }
